@@ -5,6 +5,7 @@ import json, os, subprocess, sys, tempfile
 import xml.etree.ElementTree as ET
 
 def main():
+    repo = sys.argv[1] if len(sys.argv) > 1 else "/repo"
     base = json.load(open("/root/.vp/BASELINE.json"))
     want = set(base["stable_pass"])
     with tempfile.TemporaryDirectory() as d:
@@ -14,7 +15,7 @@ def main():
         subprocess.run(
             ["/venv/bin/python", "-m", "pytest", "-ra", "-q", "-p", "no:cacheprovider", "--timeout=900",
              "--continue-on-collection-errors", "--junitxml=" + junit],
-            cwd="/repo", env=env, stdout=subprocess.DEVNULL, stderr=subprocess.DEVNULL)
+            cwd=repo, env=env, stdout=subprocess.DEVNULL, stderr=subprocess.DEVNULL)
         passed = set()
         for tc in ET.parse(junit).getroot().iter("testcase"):
             if not any(ch.tag in ("failure", "error", "skipped") for ch in tc):
@@ -24,7 +25,7 @@ def main():
     for m in missing:
         print("REGRESSED", m)
     # the suite leaves generated files behind; remove untracked ones under tests/
-    subprocess.run(["git", "-C", "/repo", "clean", "-fdq", "tests", "examples"], check=False)
+    subprocess.run(["git", "-C", repo, "clean", "-fdq", "tests", "examples"], check=False)
     return 1 if missing else 0
 
 if __name__ == "__main__":
